@@ -203,9 +203,20 @@ func (its *TransactionDatatype) DoTransaction(
 			// do nothing
 		}
 	}()
-	if err := funcWithCloneDatatype(txCtx); err != nil {
+	runCtx := txCtx
+	if runCtx == nil {
+		// the caller already runs inside the current transaction (e.g. Patch() with several operations called in a
+		// transaction body): its calls join that transaction. With a nil context they would wait for the mutex that
+		// their own transaction holds, for ever.
+		runCtx = currentTxCtx
+	}
+	if err := funcWithCloneDatatype(runCtx); err != nil {
 		its.SetTransactionFail()
 		return errors.DatatypeTransaction.New(its.L(), err.Error())
+	}
+	if !its.success {
+		// a transaction opened inside this one has failed, which fails this one as a whole (it is rolled back)
+		return errors.DatatypeTransaction.New(its.L(), "a nested transaction failed")
 	}
 	return nil
 }
